@@ -1586,10 +1586,18 @@ func (s *BgpServer) propagateUpdateToNeighbors(rib *table.TableManager, source *
 					}()
 				} else {
 					alreadySent := targetPeer.hasPathAlreadyBeenSent(newPath)
+					origPath := newPath
 					newPath := s.filterpath(targetPeer, newPath, nil)
 					// if the path is not filtered and the path has already been sent or land in the limit, we can send it
 					if newPath == nil {
 						bestList = []*table.Path{}
+						if alreadySent {
+							// the path this peer holds under that path identifier has been replaced
+							// by one that is not exportable to it: what it holds is gone
+							w := origPath.Clone(true)
+							targetPeer.updateRoutes(w)
+							bestList = []*table.Path{w}
+						}
 					} else if alreadySent || targetPeer.getRoutesCount(f, newPath.GetPrefix()) < targetPeer.getAddPathSendMax(f) {
 						bestList = []*table.Path{newPath}
 						if !alreadySent {
